@@ -227,6 +227,11 @@ def check_vcv(case):
         back = other(out, lat, lon)
         if not TR.fro(back - V) / scale <= 1e-12:
             raise Fail("rotating a covariance to the other frame and back does not return the original", expected=V, observed=back)
+        # ... and the matrix that came back (the original up to rounding: a zero variance may have become +-1e-20) is rotated again
+        again = fn(back, lat, lon)
+        if getattr(again, "shape", None) != (3, 3) or not TR.fro(np.array(again, dtype=float) - want) / scale <= 1e-12:
+            raise Fail("%s of a matrix that has been to the other frame and back is not R V R^T of it" % name, expected=want,
+                       observed=again, bucket="rotated, rotated back, rotated again")
 
 
 def check_column(case):
@@ -351,8 +356,25 @@ vec_s = st.lists(st.one_of(S.floats(-1e7, 1e7), S.floats(-10, 10), st.sampled_fr
 def psd_cond(draw):
     """PSD with prescribed eigenvalues (condition number up to 1e8) in a random orthonormal basis."""
     base = draw(TR.psd3())
-    if draw(st.integers(0, 2)) == 0:
+    pick = draw(st.integers(0, 3))
+    if pick == 0:
         return base
+    if pick == 3:
+        # singular along an axis of the frame the matrix is given in: a 2-D station (no up variance), a bench mark (height
+        # variance only), a diagonal matrix with a zero entry, a correlated horizontal block with zero up row / column
+        s = draw(S.log_uniform(1e-8, 1.0))
+        a, b, r = draw(S.floats(0.1, 1.0)), draw(S.floats(0.1, 1.0)), draw(S.floats(-0.95, 0.95))
+        kind = draw(st.integers(0, 3))
+        if kind == 0:
+            V = np.diag([a, b, 0.0])
+        elif kind == 1:
+            V = np.diag([0.0, 0.0, a])
+        elif kind == 2:
+            V = np.diag(np.roll([a, 0.0, b], draw(st.integers(0, 2))))
+        else:
+            c = r * math.sqrt(a * b)
+            V = np.array([[a, c, 0.0], [c, b, 0.0], [0.0, 0.0, 0.0]])
+        return (V * s).tolist()
     A = np.array([[TR.unit(draw) for _ in range(3)] for _ in range(3)]) + 1e-3 * np.eye(3)
     Q, _ = np.linalg.qr(A)
     k = draw(S.log_uniform(1.0, 1e8))
